@@ -104,6 +104,12 @@ var actionConst = map[string]uint32{
 	"allow":        uint32(seccomp.ActionAllow),
 	"user_notif":   uint32(seccomp.ActionUserNotify),
 	"unnamed":      0x12340000,
+	"errno+2":      uint32(seccomp.ActionErrno) | 2,
+	"errno+13":     uint32(seccomp.ActionErrno) | 13,
+	"errno+38":     uint32(seccomp.ActionErrno) | 38,
+	"errno+4094":   uint32(seccomp.ActionErrno) | 4094,
+	"trace+42":     uint32(seccomp.ActionTrace) | 42,
+	"trap+6":       uint32(seccomp.ActionTrap) | 6,
 }
 
 // Kernel UAPI values, independent of the package under test.
@@ -118,6 +124,12 @@ var retConst = map[string]uint32{
 	"allow":        0x7fff0000,
 	"user_notif":   0x7fc00000,
 	"unnamed":      0x12340000,
+	"errno+2":      0x00050002,
+	"errno+13":     0x0005000d,
+	"errno+38":     0x00050026,
+	"errno+4094":   0x00050ffe,
+	"trace+42":     0x7ff0002a,
+	"trap+6":       0x00030006,
 }
 
 func RetValue(name string) (uint32, bool) { v, ok := retConst[name]; return v, ok }
